@@ -1,19 +1,19 @@
 package main
 
 import (
-	"sync/atomic"
-	"path"
-	"net/http"
 	"bytes"
 	"encoding/binary"
 	"fmt"
 	"io"
 	"math/rand"
+	"net/http"
 	"net/http/httptest"
 	"net/url"
 	"os"
+	"path"
 	"path/filepath"
 	"strings"
+	"sync/atomic"
 
 	"github.com/folbricht/desync"
 	"github.com/pkg/errors"
